@@ -508,6 +508,12 @@ static int d_pset(fx_t *F, int v, dv_t *o)
     n = dvp(o, n, "fresh", X_FAIL, EM_INVAL, "no-assignment");
     n = dvp(o, n, "fresh2{}=x", X_FAIL, EM_INVAL, "assign-to-map");
     n = dvp(o, n, "fresh3[]=x", X_FAIL, EM_INVAL, "assign-to-list");
+    /* text after the # of the null form, on paths that would build keys,
+       replace a scalar or lengthen a list */
+    n = dvp(o, n, "fresh4.sub#junk", X_FAIL, EM_INVAL, "null-junk-new-keys");
+    n = dvp(o, n, "foo.first# junk", X_FAIL, EM_INVAL, "null-junk-scalar");
+    n = dvp(o, n, "arr[4]# junk", X_FAIL, EM_INVAL, "null-junk-index");
+    n = dvp(o, n, "arr[+]# x", X_FAIL, EM_INVAL, "null-junk-append");
     return n;
 }
 static int d_pdel(fx_t *F, int v, dv_t *o)
